@@ -96,6 +96,11 @@ func runC11(c *Ctx) bool {
 		for _, op := range c11Ops {
 			emit(&Case{Kind: "burst", Opt: map[string]string{"op": op}, Seed: gen.New(c.Seed, 1108, uint64(idx)).Uint64()})
 		}
+		// (5c) large roots: a root block bigger than a 4096-byte buffer, slow writer; the caller's
+		// writer must never be entered by two goroutines at once
+		for _, op := range []string{"text", "dryrun", "json"} {
+			emit(&Case{Kind: "large-roots", Opt: map[string]string{"op": op}, Seed: gen.New(c.Seed, 1109, uint64(idx)).Uint64()})
+		}
 		// (6) From-Root operations in massive mode
 		for _, op := range []string{"text", "json", "walk", "mkdir", "verify", "dryrun"} {
 			for _, k := range []string{"plain", "pre-cancelled", "cancel-at-hook", "fails"} {
@@ -563,6 +568,57 @@ func evalC11(c *Ctx, cs *Case, lm *mon.LeakMonitor) {
 			}
 			if c.WantSample(cs.Kind) && fired {
 				c.Sample(cs.Kind, map[string]any{"op": op, "cancel_at_event": K, "events": events, "err": errStr(e.err), "hook_trace_head": tr})
+			}
+		}
+
+	case cs.Kind == "large-roots":
+		runtime.GOMAXPROCS([]int{2, 4, 16}[r.Intn(3)])
+		var sb strings.Builder
+		var f model.Forest
+		for k := 0; k < 6; k++ {
+			n := r.Range(160, 320)
+			root := &model.Node{Name: "big" + strconv.Itoa(k)}
+			sb.WriteString("- " + root.Name + "\n")
+			for i := 1; i < n; i++ {
+				name := "node-" + strconv.Itoa(k) + "-" + strconv.Itoa(i) + "-padding-padding"
+				root.Kids = append(root.Kids, &model.Node{Name: name})
+				sb.WriteString("  - " + name + "\n")
+			}
+			f = append(f, root)
+		}
+		doc := sb.String()
+		runs := c.Pick(6, 20)
+		for i := 0; i < runs; i++ {
+			w := mon.NewRecWriter()
+			w.Yield = true
+			if i%2 == 0 {
+				w.Delay = 30 * time.Microsecond
+			}
+			e := &c11Exec{op: op, doc: []byte(doc), ctx: context.Background(), cbFailAt: -1, writer: w}
+			cs.N = []int{i}
+			if i == 0 {
+				cs.SetDoc(doc)
+				c.Rejournal(cs)
+			}
+			e.run(lm)
+			_, _, conc := w.Stats()
+			c.Eval(key("large"+strconv.Itoa(i)), true)
+			c.Count("large_root_calls", 1)
+			det := map[string]any{"roots": 6, "run": i, "max_concurrent_writes": conc}
+			ok := c11Judge(c, cs, e, det)
+			if conc > 1 {
+				c.Violation(cs, "writer.called-concurrently", op, det)
+			}
+			if e.guard.Returned {
+				if e.err != nil {
+					c.Violation(cs, "burst.unexpected-error", op, det)
+				} else if okc, why := complete(e, f); !okc {
+					det["why"] = why
+					c.Violation(cs, "large-roots.output-incomplete", op, det)
+				}
+			}
+			if !ok {
+				recycle()
 			}
 		}
 
